@@ -16,7 +16,10 @@
    the threshold together; the first of them to acquire clears the shared long-wait bit and a
    barger may get in once more before a straggler re-asserts it: bound + one per other victim), and a mix
    in which the second competitor keeps RETURNING FROM A CV WAIT on the mutex by timeout (woken directly from the cv, never
-   transferred to the mutex queue: its re-acquisition is a fresh, never-queued attempt too).
+   transferred to the mutex queue: its re-acquisition is a fresh, never-queued attempt too), and a mix that turns from the
+   adversarial schedule to a random one once the victim is about to escalate, with the barger releasing the mutex at the most
+   delicate moment it can see: while the long waiter holds the queue spinlock to queue itself again (mix 7; this one belongs to
+   C02 as much as to C14: the long waiter must still be handed the mutex).
 
    Oracles: the number of times the victim sleeps inside ONE lock call is at most
    LONG_WAIT_THRESHOLD + 2 (the constant is read from the tree under test; checked while it is still inside, by the bargers, and on
@@ -43,7 +46,7 @@ static struct {
 	unsigned max_sleeps;
 	unsigned hist[40];
 } S;
-enum { CV_ACQ = 0, CV_SLEEPS, CV_BARGE_OK, CV_BARGE_FAIL, CV_LONGWAIT_SET, CV_MAX31, CV_FRESH, CV_GROUP_STRAGGLER, CV_CVRET, CV_CVRET_FORCED };
+enum { CV_ACQ = 0, CV_SLEEPS, CV_BARGE_OK, CV_BARGE_FAIL, CV_LONGWAIT_SET, CV_MAX31, CV_FRESH, CV_GROUP_STRAGGLER, CV_CVRET, CV_CVRET_FORCED, CV_REL_IN_SPIN };
 
 #define READER_MIX (S.mix == 1 || S.mix == 5)
 static int is_victim (int tid) { return (tid < S.nvict); }
@@ -106,6 +109,8 @@ static void victim (int tid) {
    victims sleep 300 us after every wake-up) with free-running threads */
 static int overdue (int *guard, int64_t t0) { return (rt_mode_b () ? ++*guard > 3000000 : ((++*guard & 1023) == 0 && rt_now_ns () - t0 > 240ll * 1000000000ll)); }
 
+static int late_stage (void) { return (__atomic_load_n (&S.in_call[0], __ATOMIC_ACQUIRE) && rt_thread_sleeps (0) - S.base_sleeps[0] + 2 >= LONG_WAIT_THRESHOLD); }
+
 static void barger (int tid) {
 	int reader = (S.mix == 2), guard = 0; int64_t t0 = rt_now_ns ();
 	(void) tid;
@@ -124,6 +129,8 @@ static void barger (int tid) {
 					for (v = 0; v < S.nvict; v++) if (!__atomic_load_n (&S.vdone[v], __ATOMIC_ACQUIRE) && !(__atomic_load_n (&S.in_call[v], __ATOMIC_ACQUIRE) && rt_thread_in_wait (v))) all = 0;
 					/* a fresh locker that is inside its call but awake (just woken) also gets its failing turn before the release */
 					if (S.fresh_tid > 0 && __atomic_load_n (&S.fresh_in_call, __ATOMIC_ACQUIRE) && !rt_thread_in_wait (S.fresh_tid)) all = 0;
+					/* mix 7: once the victim is a long waiter (or about to be), release while it holds the queue spinlock to re-queue itself */
+					if (S.mix == 7 && late_stage () && (sc_word (&S.mu.word) & 2u) != 0 && !rt_thread_in_wait (0)) { rt_cover (CV_REL_IN_SPIN); break; }
 					if (all || __atomic_load_n (&S.victim_done, __ATOMIC_ACQUIRE) >= S.nvict || ++spins > 20000) break;
 					rt_yield ();
 				}
@@ -184,6 +191,7 @@ static void body (int tid) { if (is_victim (tid)) victim (tid); else if (S.mix =
 static int adversary (int self, int forced, const int *run, int n) {
 	static int chain;
 	int i, self_victim = (self >= 0 && is_victim (self));
+	if (S.mix == 7 && late_stage ()) return (-1);     /* the scheduler's own random policy from here on */
 	if (!forced) { for (i = 0; i < n; i++) if (run[i] == self) return (self); }
 	/* the running thread yields or cannot continue.  A yielding barger first lets the other non-victims take their
 	   turn (at most one round of them), then a victim (which takes its failing turn); a yielding or sleeping
@@ -200,11 +208,12 @@ static int adversary (int self, int forced, const int *run, int n) {
 static int setup (uint64_t seed) {
 	(void) seed;
 	nsync_mu_init (&S.mu); nsync_cv_init (&S.cv);
-	S.mix = (int) rt_param ("mix", -1); if (S.mix < 0) S.mix = (int) rt_rand_n (7);
+	S.mix = (int) rt_param ("mix", -1); if (S.mix < 0) S.mix = (int) rt_rand_n (8);
 	S.nvict = S.mix == 3 ? 2 : S.mix == 5 ? 2 + (int) rt_rand_n (2) : 1;
 	S.nbarg = 1 + (int) rt_rand_n (2);
 	if (S.mix == 5 && S.nvict == 3) S.nbarg = 1;
 	if (S.mix == 4) S.nbarg = 2;      /* one try-lock barger and one fresh blocking locker */
+	if (S.mix == 7) S.nbarg = 1;
 	if (S.mix == 6) S.nbarg = 2;      /* one try-lock barger and one thread that keeps returning from timed-out cv waits */
 	S.nacq = 1 + (int) rt_rand_n (2);
 	S.victim_done = 0; S.barger_holds = 0; S.window = 0; S.fresh_in_call = 0; S.fresh_tid = (S.mix == 4 || S.mix == 6) ? S.nvict + S.nbarg - 1 : 0; S.in_call[0] = S.in_call[1] = S.in_call[2] = 0; S.vdone[0] = S.vdone[1] = S.vdone[2] = 0; memset (S.queued, 0, sizeof (S.queued));
@@ -214,11 +223,11 @@ static int setup (uint64_t seed) {
 }
 static void check (void) { if ((sc_word (&S.mu.word) & (SC_MU_ANY_LOCK | 2u | MU_LONG_WAIT)) != 0) rt_violation ("final-word", "held", "after every thread finished the mutex word is %#x", sc_word (&S.mu.word)); }
 static void teardown (void) { rt_watch_word (0, NULL, NULL); }
-static void describe (FILE *f) { static const char *const mn[] = { "writer victim / trylock bargers", "reader victim / trylock bargers", "writer victim / rtrylock bargers", "two writer victims / trylock bargers", "writer victim / trylock barger + fresh blocking lockers", "group of reader victims / trylock bargers", "writer victim / trylock barger + a thread returning from timed-out cv waits" };
+static void describe (FILE *f) { static const char *const mn[] = { "writer victim / trylock bargers", "reader victim / trylock bargers", "writer victim / rtrylock bargers", "two writer victims / trylock bargers", "writer victim / trylock barger + fresh blocking lockers", "group of reader victims / trylock bargers", "writer victim / trylock barger + a thread returning from timed-out cv waits", "writer victim / trylock barger, random schedule after escalation, release while the victim holds the queue spinlock" };
 	fprintf (f, "{\"mix\":\"%s\",\"bargers\":%d,\"victim_acquisitions\":%d,\"max_sleeps_in_one_call_so_far\":%u}", mn[S.mix], S.nbarg, S.nacq, S.max_sleeps); }
 static void summary (FILE *f) { int i; fprintf (f, "\"sleeps_histogram\":["); for (i = 0; i < 40; i++) fprintf (f, "%s%u", i ? "," : "", S.hist[i]); fprintf (f, "]"); }
 static void pinit (void) {
 	rt_cover_name (CV_ACQ, "victim_acquisitions"); rt_cover_name (CV_SLEEPS, "victim_sleeps_total"); rt_cover_name (CV_BARGE_OK, "barger_trylock_ok"); rt_cover_name (CV_BARGE_FAIL, "barger_trylock_failed");
-	rt_cover_name (CV_LONGWAIT_SET, "long_wait_bit_set"); rt_cover_name (CV_MAX31, "acquisitions_that_needed_31_or_more_sleeps"); rt_cover_name (CV_FRESH, "fresh_blocking_attempts_in_the_window"); rt_cover_name (CV_CVRET, "returns_from_timed_out_cv_waits_by_a_competitor"); rt_cover_name (CV_CVRET_FORCED, "cv_timeouts_fired_in_the_window_after_escalation"); rt_cover_name (CV_GROUP_STRAGGLER, "reader_group_stragglers_overtaken_after_the_bit_was_cleared");
+	rt_cover_name (CV_LONGWAIT_SET, "long_wait_bit_set"); rt_cover_name (CV_MAX31, "acquisitions_that_needed_31_or_more_sleeps"); rt_cover_name (CV_FRESH, "fresh_blocking_attempts_in_the_window"); rt_cover_name (CV_CVRET, "returns_from_timed_out_cv_waits_by_a_competitor"); rt_cover_name (CV_REL_IN_SPIN, "releases_while_the_long_waiter_held_the_queue_spinlock"); rt_cover_name (CV_CVRET_FORCED, "cv_timeouts_fired_in_the_window_after_escalation"); rt_cover_name (CV_GROUP_STRAGGLER, "reader_group_stragglers_overtaken_after_the_bit_was_cleared");
 }
 rt_scenario rt_scen = { "starve", "C14", 4, &pinit, &setup, &body, &check, &teardown, &describe, &summary, NULL, &adversary };
